@@ -107,4 +107,47 @@ theorem revids_distinct_conditional (S : SigScheme)
   have hk := List.append_inj_right' hm (by rw [publen, publen])
   exact hne (pubInj _ _ hk)
 
+/-! Reload without a hypothesis on the decoder's result; counts along histories. -/
+
+/-- A library-produced envelope that reloads from its own bytes comes back with the same
+identifiers, in the same order (no hypothesis on what the decoder returned). -/
+theorem reload_revids (e e' : BiscuitMsg) (hwf : LibWF e) (hr : reload e = some e') :
+    revocationIds e' = revocationIds e := by
+  have halg' : ∀ sb ∈ e.authority :: e.blocks, sb.nextKey.algorithm < 2^64 := by
+    intro sb hsb; rw [hwf.2 sb hsb]; show (0 : Nat) < 2^64; omega
+  rw [reload_some e e' hr, normEnv_eq e hwf.1 halg']
+
+/-- Number of `append` steps of a history. -/
+def appends : List DeriveOp → Nat
+  | [] => 0
+  | .append _ _ :: ops => appends ops + 1
+  | _ :: ops => appends ops
+
+/-- **C17, count along histories.** The derived token has exactly one identifier more per
+`append` of its history, none for `seal` and `reload`. -/
+theorem revids_count_history (S : SigScheme) (e0 e : BiscuitMsg) (ops : List DeriveOp) (hwf : LibWF e0)
+    (h : deriveAll true S e0 ops = .ok e) :
+    (revocationIds e).length = (revocationIds e0).length + appends ops := by
+  induction ops generalizing e0 with
+  | nil => simp only [deriveAll, Except.ok.injEq] at h; subst h; rfl
+  | cons op ops ih =>
+    simp only [deriveAll] at h
+    cases hd : derive true S e0 op with
+    | error r => rw [hd] at h; cases h
+    | ok e1 =>
+      rw [hd] at h
+      have halg' : ∀ sb ∈ e0.authority :: e0.blocks, sb.nextKey.algorithm < 2^64 := by
+        intro sb hsb; rw [hwf.2 sb hsb]; show (0 : Nat) < 2^64; omega
+      have h1 := (derive_revids S e0 e1 op hwf.1 halg' hd).2
+      have h2 := ih e1 (derive_keeps_LibWF S e0 e1 op hwf hd) h
+      rw [h2, h1]
+      cases op <;> simp only [appends] <;> omega
+
+/-- …and hence one identifier per block of the derived token, the first `n` being the ancestor's. -/
+theorem revids_take_ancestor (S : SigScheme) (e0 e : BiscuitMsg) (ops : List DeriveOp) (hwf : LibWF e0)
+    (h : deriveAll true S e0 ops = .ok e) :
+    (revocationIds e).take (revocationIds e0).length = revocationIds e0 := by
+  obtain ⟨t, ht⟩ := revids_prefix S e0 e ops hwf h
+  rw [← ht, List.take_left]
+
 end Biscuit.C17
